@@ -34,6 +34,9 @@ func init() {
 			err := mldsa44.SignTo(sk.(*mldsa44.PrivateKey), msg, ctx, false, sig)
 			return sig, err
 		},
+		signInto: func(sk interface{}, msg, ctx, dst []byte) error {
+			return mldsa44.SignTo(sk.(*mldsa44.PrivateKey), msg, ctx, false, dst)
+		},
 		verify: func(pk interface{}, msg, ctx, sig []byte) bool {
 			return mldsa44.Verify(pk.(*mldsa44.PublicKey), msg, ctx, sig)
 		},
@@ -73,6 +76,9 @@ func init() {
 			sig := make([]byte, mldsa65.SignatureSize)
 			err := mldsa65.SignTo(sk.(*mldsa65.PrivateKey), msg, ctx, false, sig)
 			return sig, err
+		},
+		signInto: func(sk interface{}, msg, ctx, dst []byte) error {
+			return mldsa65.SignTo(sk.(*mldsa65.PrivateKey), msg, ctx, false, dst)
 		},
 		verify: func(pk interface{}, msg, ctx, sig []byte) bool {
 			return mldsa65.Verify(pk.(*mldsa65.PublicKey), msg, ctx, sig)
@@ -114,6 +120,9 @@ func init() {
 			err := mldsa87.SignTo(sk.(*mldsa87.PrivateKey), msg, ctx, false, sig)
 			return sig, err
 		},
+		signInto: func(sk interface{}, msg, ctx, dst []byte) error {
+			return mldsa87.SignTo(sk.(*mldsa87.PrivateKey), msg, ctx, false, dst)
+		},
 		verify: func(pk interface{}, msg, ctx, sig []byte) bool {
 			return mldsa87.Verify(pk.(*mldsa87.PublicKey), msg, ctx, sig)
 		},
@@ -153,6 +162,10 @@ func init() {
 			sig := make([]byte, mode2.SignatureSize)
 			mode2.SignTo(sk.(*mode2.PrivateKey), msg, sig)
 			return sig, nil
+		},
+		signInto: func(sk interface{}, msg, ctx, dst []byte) error {
+			mode2.SignTo(sk.(*mode2.PrivateKey), msg, dst)
+			return nil
 		},
 		verify: func(pk interface{}, msg, ctx, sig []byte) bool {
 			return mode2.Verify(pk.(*mode2.PublicKey), msg, sig)
@@ -194,6 +207,10 @@ func init() {
 			mode3.SignTo(sk.(*mode3.PrivateKey), msg, sig)
 			return sig, nil
 		},
+		signInto: func(sk interface{}, msg, ctx, dst []byte) error {
+			mode3.SignTo(sk.(*mode3.PrivateKey), msg, dst)
+			return nil
+		},
 		verify: func(pk interface{}, msg, ctx, sig []byte) bool {
 			return mode3.Verify(pk.(*mode3.PublicKey), msg, sig)
 		},
@@ -233,6 +250,10 @@ func init() {
 			sig := make([]byte, mode5.SignatureSize)
 			mode5.SignTo(sk.(*mode5.PrivateKey), msg, sig)
 			return sig, nil
+		},
+		signInto: func(sk interface{}, msg, ctx, dst []byte) error {
+			mode5.SignTo(sk.(*mode5.PrivateKey), msg, dst)
+			return nil
 		},
 		verify: func(pk interface{}, msg, ctx, sig []byte) bool {
 			return mode5.Verify(pk.(*mode5.PublicKey), msg, sig)
